@@ -623,6 +623,33 @@ func StructPadNest() Type[PadNest] {
 		[]string{"{{0,0},0}", "{{1,0},0}", "{{0,0},1}", "{{255,max},255}"}, fwPadNest, true))
 }
 
+// PadNestOff nests a struct with TRAILING padding at a NON-ZERO offset (and has more padding after it).
+type PadCell struct {
+	X, Y int32
+	L    uint8
+}
+type PadNestOff struct {
+	T    uint64
+	Cell PadCell
+	Z    uint16
+}
+
+//go:noinline
+func fwPadNestOff(k PadNestOff) PadNestOff {
+	Dirty(0xEE)
+	var r PadNestOff
+	r.T = k.T
+	r.Cell.X, r.Cell.Y, r.Cell.L = k.Cell.X, k.Cell.Y, k.Cell.L
+	r.Z = k.Z
+	return r
+}
+
+func StructPadNestOff() Type[PadNestOff] {
+	return mkType("struct{T uint64; Cell struct{X,Y int32; L uint8}; Z uint16}", "struct-pad-mem", true, aggKeys(
+		[]PadNestOff{{}, {T: 1}, {Cell: PadCell{0, 0, 1}}, {math.MaxUint64, PadCell{math.MinInt32, math.MaxInt32, 255}, 65535}},
+		[]string{"{0,{0,0,0},0}", "{1,{0,0,0},0}", "{0,{0,0,1},0}", "{max,{min,max,255},max}"}, fwPadNestOff, true))
+}
+
 type PadPtr struct {
 	P *int
 	B bool
